@@ -139,6 +139,9 @@ def _build_plain(run, lib):
     base = asyncstdlib.ContextDecorator if lib == "impl" else contextlib.AsyncContextDecorator
 
     class Plain(base):
+        def __len__(self):      # a context manager object may be falsy (a container that is also a context manager)
+            return 0
+
         async def __aenter__(self):
             c = run.cur
             prog = calls[c]["plain"]
@@ -174,7 +177,6 @@ def _decorated(run, lib):
     calls = run.case["calls"]
     cm = _build_gen(run, lib) if run.case["gb"] else _build_plain(run, lib)
 
-    @cm
     async def func(c, *rest, **kw):
         ok = rest == ("r",) and kw == {"kw": c}
         run.log.append([c, None, "bodyBegin"] if ok else [c, None, "bodyBegin", "BAD-ARGS"])
@@ -192,7 +194,17 @@ def _decorated(run, lib):
         run.log.append([c, None, "bodyEnd", ["exc", ["user", _code(body)]]])
         raise run.exc(_code(body))
 
-    return func
+    async def func2(c, *rest, **kw):
+        return await func(c, *rest, **kw)
+
+    # ONE manager object decorates TWO functions (`traced = ctx(); @traced def f...; @traced def g...`): calls of either
+    # must each get a fresh context, whichever function is called first
+    wrapped = (cm(func), cm(func2))
+
+    def call(c, *rest, **kw):
+        return wrapped[c % 2](c, *rest, **kw)
+
+    return call
 
 
 def _execute(case, lib, only=None):
